@@ -318,7 +318,7 @@ MANIFEST_TEXT = {
         technique="Lean 4 proof (transition-system invariants + termination measure) with differential correspondence on adversarial announcements"),
     "C11": dict(
         text="Kernel-checked theorems over the replicator transition system for EVERY earlier history (loads, cancellations at any point, fetch failures, any interleaving): the bookkeeping invariant and 'no hole is ever forgotten' hold in every reachable state; whenever it comes to rest with nothing to retry it is complete; once aborted requests have returned, ONE uncancelled request run to quiescence lists everything reachable; without that, at most two. Pinned-tree wedge witnesses are decide-checked and were replayed on the real code before the fix: commits (three defects repaired: orphaned queue item, failed fetch marked fetched, progress-channel deadlock). The cancel family drives the real replicator through hooks and gates at every cancellation point.",
-        note="Known finding K1 (listed, exhibited by the corpus on every run): a request racing with a still-unwinding pre-cancelled request can complete without the shared hash; the next request brings it. Goroutine steps are modelled as atomic under the replicator mutex; timeouts are cancellations at a point.",
+        note="Known finding K1 (listed, exhibited by the corpus on every run): a request racing with a still-unwinding pre-cancelled request can complete without the shared hash; the next request brings it. Known finding K2 (listed, exhibited by the corpus on every run): the liveness theorems assume that every fetch under a live context returns; a retried fetch of a block nobody serves does not, and while it hangs what later requests fetched stays in the replicator's buffer (kernel-checked on the model: no other move delivers it; replayed on the real replicator). Goroutine steps are modelled as atomic under the replicator mutex; timeouts are cancellations at a point.",
         technique="Lean 4 proof (inductive invariant over all schedules, potential-function termination) with hook/gate-driven differential harness"),
     "C12": dict(
         text="Kernel-checked theorems from the decode result onward: no decoded message (any mix of null, empty, partial heads) makes Sync panic, only complete heads are loaded, the outcome for a message does not depend on what preceded it; no 64-bit length prefix makes the frame reader panic and accepted lengths are within the limit, with the guard regenerated from the Go text on every run. A PUTALL batch with `null` members (a validly signed entry any writer can publish) is indexed as the batch of its real members and never dereferenced (finding F25, fix: commit; accessor tied to the Go text). The pinned tree is refuted by decide-checked witnesses replayed on the real code before the fix: commits. The harness delivers structurally enumerated malformed messages on the topic and the direct channel and raw frames to the real stream handler; a panic kills the harness process and is attributed to the running scenario.",
